@@ -1,5 +1,6 @@
 """C05 — JSON and XDL encoding round-trips every Var exactly: plugin for tools/check.py"""
 import json
+import re
 import struct
 import sys
 
@@ -593,8 +594,83 @@ def gen(rng, tier):
 
 
 # the decoder model (lean/AslModel/Xdl.lean) reads the int/atof split and the \\u buffer sizes from lean/Gen/XdlGen.lean
-translate = J.translate
-FALLBACK = J.FALLBACK
+def translate_enc(repo):
+    """G (encoder side): number formats, string-escape table, flush threshold, read-chunk size and snprintf buffer sizes of
+    src/Xdl.cpp -> lean/Gen/XdlEncGen.lean.  Anything not recognised raises (never a default)."""
+    from lib import cparse
+    from lib.engine import TranslateError
+    src = cparse.read(repo, "src/Xdl.cpp").replace("\r", "")
+    m = re.search(r"String\s+XdlEncoder::encode\s*\(\s*const\s+Var&\s*v\s*,\s*Json::Mode\s+mode\s*\)\s*\{(.*?)\n\}", src, re.S)
+    if not m:
+        raise TranslateError("XdlEncoder::encode(const Var&, Json::Mode) not found in src/Xdl.cpp")
+    blk = m.group(1)
+    mf = re.search(r"_simple\s*=\s*\(\s*mode\s*&\s*Json::SIMPLE\s*\)\s*!=\s*0\s*;\s*_fmtF\s*=\s*_simple\s*\?\s*\"%\.(\d+)g\"\s*:\s*\"%\.(\d+)g\"\s*;\s*"
+                   r"_fmtD\s*=\s*_simple\s*\?\s*\"%\.(\d+)g\"\s*:\s*\"%\.(\d+)g\"\s*;\s*if\s*\(\s*mode\s*&\s*Json::SHORTF\s*\)\s*_fmtD\s*=\s*_fmtF\s*;", blk)
+    if not mf:
+        raise TranslateError("XdlEncoder::encode: `_fmtF = _simple ? \"%.Ag\" : \"%.Bg\"; _fmtD = _simple ? \"%.Cg\" : \"%.Dg\"; if (mode & Json::SHORTF) _fmtD = _fmtF;` not recognised")
+    if len(re.findall(r"_fmt[FD]\s*=", blk)) != 3:
+        raise TranslateError("XdlEncoder::encode assigns _fmtF/_fmtD an unexpected number of times")
+    body = cparse.find_function(src, r"void\s+XdlEncoder::new_string\s*\(\s*const\s+char\s*\*\s*x\s*\)")
+    ms = re.fullmatch(r"\s*\{\s*_out\s*<<\s*'\\\"'\s*;\s*const\s+char\s*\*\s*p\s*=\s*x\s*;\s*while\s*\(\s*char\s+c\s*=\s*\*p\+\+\s*\)\s*\{\s*switch\s*\(\s*c\s*\)\s*\{(.*?)default\s*:(.*?)\}\s*\}\s*_out\s*<<\s*'\\\"'\s*;\s*\}\s*", body, re.S)
+    if not ms:
+        raise TranslateError("XdlEncoder::new_string: `_out << '\"'; while (char c = *p++) switch (c) {case...; default: ...} _out << '\"';` not recognised")
+    cases = []
+    rest = ms.group(1)
+    pos = 0
+    for mc in re.finditer(r"\s*case\s+'((?:\\.|[^'\\]))'\s*:\s*_out\s*<<\s*\"((?:\\.|[^\"\\])*)\"\s*;\s*break\s*;", rest):
+        if mc.start() != pos:
+            raise TranslateError("XdlEncoder::new_string: unrecognised text between the cases of the escape switch")
+        pos = mc.end()
+        cases.append((cparse.c_string_literal(mc.group(1))[0], cparse.c_string_literal(mc.group(2))))
+    if rest[pos:].strip() or not cases:
+        raise TranslateError("XdlEncoder::new_string: unrecognised case in the escape switch: " + rest[pos:].strip()[:60])
+    md = re.fullmatch(r"\s*if\s*\(\s*\(unsigned\s+char\)\s*c\s*<\s*'(.)'\s*\)(?:\s*//[^\n]*)?\s*\{\s*char\s+u\s*\[\s*(\d+)\s*\]\s*;\s*snprintf\s*\(\s*u\s*,\s*sizeof\s*\(\s*u\s*\)\s*,\s*"
+                      r"\"((?:\\.|[^\"\\%])*)%0(\d)x\"\s*,\s*\(unsigned\)\s*c\s*\)\s*;\s*_out\s*<<\s*u\s*;\s*\}\s*else\s+_out\s*<<\s*c\s*;\s*", ms.group(2), re.S)
+    if not md:
+        raise TranslateError("XdlEncoder::new_string default: `if ((unsigned char)c < ' ') { char u[N]; snprintf(u, sizeof(u), \"\\\\u%04x\", (unsigned)c); _out << u; } else _out << c;` not recognised")
+    below, ubuf, upre, uwidth = ord(md.group(1)), int(md.group(2)), cparse.c_string_literal(md.group(3)), int(md.group(4))
+    if uwidth != 4:
+        raise TranslateError("new_string: \\u escape is not printed with %04x")
+    mfl = re.findall(r"if\s*\(\s*_out\.length\(\)\s*>\s*(\d+)\s*\)\s*(?:\{\s*)?_sink", src)
+    if len(mfl) != 1:
+        mfl = re.findall(r"if\s*\(\s*_out\.length\(\)\s*>\s*(\d+)\s*\)", src)
+        if len(mfl) != 1:
+            raise TranslateError("the flush test `if (_out.length() > N)` of XdlEncoder was not found exactly once")
+    mr = re.search(r"int\s+size\s*=\s*int\s*\(\s*clamp\s*\(\s*tfile\.size\(\)\s*,\s*0ll\s*,\s*(\d+)ll\s*\)\s*\)\s*;\s*if\s*\(\s*size\s*==\s*0\s*\)\s*return\s+Var\(\)\s*;\s*"
+                   r"Array<char>\s+buffer\s*\(\s*min\s*\(\s*(\d+)\s*,\s*size\s*\)\s*\+\s*1\s*\)\s*;", src)
+    if not mr:
+        raise TranslateError("Xdl::read: `int size = int(clamp(tfile.size(), 0ll, Nll)); if (size == 0) return Var(); Array<char> buffer(min(K, size) + 1);` not recognised")
+    mb = re.findall(r"snprintf\s*\(\s*&_out\[n\]\s*,\s*(\d+)\s*,\s*(_fmt[DF])\s*,\s*x\s*\)", src)
+    if sorted(x[1] for x in mb) != ["_fmtD", "_fmtF"]:
+        raise TranslateError("the two calls snprintf(&_out[n], N, _fmtD/_fmtF, x) were not found exactly once each")
+    bufs = {k: int(v) for v, k in mb}
+    t = "/- GENERATED by tools/props/c05.py from src/Xdl.cpp (XdlEncoder::encode, new_string, new_number, Xdl::read) — do not edit -/\nnamespace Gen.XdlEnc\n\n"
+    t += "/-- `_fmtF = _simple ? \"%%.%sg\" : \"%%.%sg\"` -/\ndef precF (simple : Bool) : Nat := if simple then %s else %s\n" % (mf.group(1), mf.group(2), mf.group(1), mf.group(2))
+    t += "/-- `_fmtD = _simple ? \"%%.%sg\" : \"%%.%sg\"; if (mode & SHORTF) _fmtD = _fmtF` -/\n" % (mf.group(3), mf.group(4))
+    t += "def precD (simple shortf : Bool) : Nat := if shortf then precF simple else if simple then %s else %s\n\n" % (mf.group(3), mf.group(4))
+    t += "/-- the `case 'c': _out << \"..\"; break;` lines of `new_string`, in source order -/\ndef escCases : List (UInt8 × List UInt8) := [\n"
+    t += ",\n".join("  (%d, [%s])" % (c, ", ".join(str(b) for b in bs)) for c, bs in cases) + "]\n"
+    t += "/-- default branch: `(unsigned char)c < N` is printed with `PREFIX%04x` into `char u[B]` -/\n"
+    t += "def ctrlBelow : Nat := %d\ndef uPrefix : List UInt8 := [%s]\ndef uBuf : Nat := %d\n" % (below, ", ".join(str(b) for b in upre), ubuf)
+    t += "def hexLow (n : Nat) : UInt8 := if n < 10 then UInt8.ofNat (48 + n) else UInt8.ofNat (87 + n)\n"
+    t += ("def escByte (c : UInt8) : List UInt8 :=\n  match escCases.find? (·.1 == c) with\n  | some p => p.2\n  | none =>\n"
+          "    if c.toNat < ctrlBelow then uPrefix ++ [hexLow (c.toNat / 4096 % 16), hexLow (c.toNat / 256 % 16), hexLow (c.toNat / 16 % 16), hexLow (c.toNat % 16)]\n    else [c]\n\n")
+    t += "/-- `if (_out.length() > N) _sink->write(_out)` -/\ndef flushAbove : Nat := %s\n" % mfl[0]
+    t += "/-- `Xdl::read`: `clamp(size, 0, N)`, `buffer(min(K, size) + 1)` -/\ndef readClamp : Nat := %s\ndef readChunk : Nat := %s\n" % (mr.group(1), mr.group(2))
+    t += "/-- `snprintf(&_out[n], N, _fmtD, x)` / `snprintf(&_out[n], N, _fmtF, x)` -/\ndef dblBuf : Nat := %d\ndef fltBuf : Nat := %d\n\nend Gen.XdlEnc\n" % (bufs["_fmtD"], bufs["_fmtF"])
+    return {"Gen/XdlEncGen.lean": t}
+
+
+def translate(repo):
+    files = dict(J.translate(repo))
+    files.update(translate_enc(repo))
+    return files
+
+
+FALLBACK = dict(J.FALLBACK)
+FALLBACK["Gen/XdlEncGen.lean"] = ("namespace Gen.XdlEnc\ndef precF (simple : Bool) : Nat := 0\ndef precD (simple shortf : Bool) : Nat := 0\ndef escCases : List (UInt8 × List UInt8) := []\n"
+                                  "def ctrlBelow : Nat := 0\ndef uPrefix : List UInt8 := []\ndef uBuf : Nat := 0\ndef escByte (c : UInt8) : List UInt8 := []\ndef flushAbove : Nat := 0\n"
+                                  "def readClamp : Nat := 0\ndef readChunk : Nat := 0\ndef dblBuf : Nat := 0\ndef fltBuf : Nat := 0\nend Gen.XdlEnc\n")
 
 
 def nontrivial(case):
